@@ -103,6 +103,10 @@ pub struct Gen<A> { pub a: A }
 pub struct HoldsRange { pub n: u32, pub r: core::ops::RangeTo<Fake>, pub ri: core::ops::RangeToInclusive<Fake> }
 #[derive(Epserde, Clone, Debug)]
 pub struct Pre<A> { pub s: String, pub f: A }
+/// reports zero items, yields all of them
+pub struct Under<'a>(pub std::slice::Iter<'a, Fake>);
+impl<'a> Iterator for Under<'a> { type Item = &'a Fake; fn next(&mut self) -> Option<&'a Fake> { self.0.next() } fn size_hint(&self) -> (usize, Option<usize>) { (0, Some(0)) } }
+impl<'a> ExactSizeIterator for Under<'a> { fn len(&self) -> usize { 0 } }
 pub static FAKES: [Fake; 2] = [Fake { s: &FAKE_DATA }, Fake { s: &FAKE_DATA }];
 """
 F = "Fake { s: &FAKE_DATA }"
@@ -135,6 +139,8 @@ HAND_CONTEXTS = [
     ("seriter", "SerIter<'static, Fake, std::slice::Iter<'static, Fake>>", f"SerIter::from(FAKES.iter())"),
     ("seriter-in-generic", "Gen<SerIter<'static, Fake, std::slice::Iter<'static, Fake>>>", f"Gen {{ a: SerIter::from(FAKES.iter()) }}"),
     ("slice-in-generic", "Gen<&[Fake]>", f"Gen {{ a: &FAKES[..] }}"),
+    ("seriter-underreporting", "SerIter<'static, Fake, Under<'static>>", "SerIter::from(Under(FAKES.iter()))"),
+    ("seriter-underreporting-in-generic", "Gen<SerIter<'static, Fake, Under<'static>>>", "Gen { a: SerIter::from(Under(FAKES.iter())) }"),
 ] + [
     # the wrong value, its zero-copy holder and an array of it at every residue of the stream offset
     (f"after-string-{k}", "Pre<Fake>", f"Pre {{ s: String::from(\"{'x' * k}\"), f: {F} }}") for k in range(8)
